@@ -749,6 +749,22 @@ def lowered_alternatives(k, dt):
     repaired_<k> may be listed here while a patch of .scratch/c01k/ is pending."""
     low = coq_names(k, dt)[1]
     alts = [low]
+    if k.name == "relu" and dt in INT_DTYPES:                                  # fix_relu_unsigned.diff (pending)
+        alts.append(f"repaired_relu {sb_lit(dt)}")
+    elif k.name.startswith("jnp_power"):                                       # fix_jnp_power.diff (pending)
+        alts.append(f"(fun x => lowered_integer_pow {sb_lit(dt)} x {k.extra['y']}%nat)")
+    return alts
+
+
+def deep_alternatives(k, dt):
+    dn = deep_name(k, dt)
+    if dn is None:
+        return []
+    alts = [dn]
+    if k.name == "relu" and dt in UNSIGNED:
+        alts.append("KOp1 OIdentity v0")
+    elif k.name.startswith("jnp_power"):
+        alts.append(f"ke_integer_pow {sb_lit(dt)} {k.extra['y']}%nat")
     return alts
 
 
@@ -1649,8 +1665,11 @@ def run(ctx):
             if dn is not None:
                 v.deep = deep_of_term(v.term)
                 if v.deep is not None:
-                    v.sd_job = jobs.add(f"Goal (({v.deep}) : kx) = ({dn}).\nProof. first [ timeout 20 reflexivity; idtac \"TIE_S_OK\" "
-                                        f"| idtac \"TIE_S_BAD\" ]. Abort.\n")
+                    dalts = deep_alternatives(v.k, v.dt)
+                    dgoal = " \\/ ".join(f"((({v.deep}) : kx) = ({a_}))" for a_ in dalts)
+                    dtacs = [("" if len(dalts) == 1 else ("left; " if n_ == 0 else "right; ")) + "timeout 20 reflexivity; idtac \"TIE_S_OK\""
+                             for n_ in range(len(dalts))]
+                    v.sd_job = jobs.add(f"Goal {dgoal}.\nProof. first [ " + " | ".join(dtacs) + " | idtac \"TIE_S_BAD\" ]. Abort.\n")
         except Unrecognised as e:
             v.term_err = str(e)
 
